@@ -26,6 +26,9 @@ type decObs struct {
 	ParsedOK bool   `json:"parsedok"`
 	Parsed   DecV   `json:"parsed"`
 	Msg      string `json:"msg"`
+	// the operands as they are after the operation (they must not have been changed by it)
+	AAfter DecV `json:"aafter"`
+	BAfter DecV `json:"bafter"`
 }
 
 func cmdDecimal(in *bufio.Scanner, out *bufio.Writer) error {
@@ -37,7 +40,7 @@ func cmdDecimal(in *bufio.Scanner, out *bufio.Writer) error {
 			return err
 		}
 		idx++
-		o := decObs{Idx: idx, D: zero, Parsed: zero, Text: Bytes{}}
+		o := decObs{Idx: idx, D: zero, Parsed: zero, Text: Bytes{}, AAfter: zero, BAfter: zero}
 		err, pan, site := safely(func() error {
 			a := c.A.Ion()
 			var b *ion.Decimal
@@ -78,6 +81,10 @@ func cmdDecimal(in *bufio.Scanner, out *bufio.Writer) error {
 				} else {
 					o.Msg = err.Error()
 				}
+			}
+			o.AAfter = decFromIon(a)
+			if b != nil {
+				o.BAfter = decFromIon(b)
 			}
 			return nil
 		})
